@@ -151,6 +151,24 @@ func (e *HDLeaf) Error() string       { return e.Msg }
 func (e *HDLeaf) ErrorHint() string   { return e.Hint }
 func (e *HDLeaf) ErrorDetail() string { return e.Detail }
 
+// FmtArgLeaf: its FormatError hands an ERROR VALUE to the printer as a format argument.
+type FmtArgLeaf struct {
+	Msg string
+	Aux error
+}
+
+func (e *FmtArgLeaf) Error() string                 { return e.Msg + " [" + e.Aux.Error() + "]" }
+func (e *FmtArgLeaf) Format(s fmt.State, verb rune) { errors.FormatError(e, s, verb) }
+func (e *FmtArgLeaf) FormatError(p errors.Printer) error {
+	p.Printf("%s [%v]", e.Msg, e.Aux)
+	return nil
+}
+
+// PanicLeaf: Error() panics (never part of a generated tree: a hostile Is reference).
+type PanicLeaf struct{}
+
+func (e *PanicLeaf) Error() string { panic("PanicLeaf.Error called") }
+
 // ---- wrappers -------------------------------------------------------
 
 // HDWrap: a third-party WRAPPER with its own hint and detail; registered.
@@ -274,6 +292,23 @@ func (e *ElideWrap) FormatError(p errors.Printer) error {
 	return nil // nil elides the cause's message
 }
 
+// OldFmtElideWrap: an old-style Format method (no FormatError) AND an
+// Error() that replaces the cause's text instead of prefixing it.
+type OldFmtElideWrap struct {
+	C   error
+	Msg string
+}
+
+func (e *OldFmtElideWrap) Error() string { return e.Msg }
+func (e *OldFmtElideWrap) Unwrap() error { return e.C }
+func (e *OldFmtElideWrap) Format(s fmt.State, verb rune) {
+	if verb == 'v' && s.Flag('+') {
+		fmt.Fprintf(s, "%s\n-- oldfmtelide verbose", e.Msg)
+		return
+	}
+	fmt.Fprint(s, e.Msg)
+}
+
 // ---- multi-cause ----------------------------------------------------
 
 // MultiNoFmt: unregistered multi-cause error.
@@ -307,47 +342,47 @@ func (e *MultiReg) Error() string {
 func (e *MultiReg) Unwrap() []error { return e.Cs }
 
 func init() {
-	k := errbase.GetTypeKey((*ElideWrap)(nil))
-	errbase.RegisterWrapperEncoderWithMessageType(k,
+	k := errors.GetTypeKey((*ElideWrap)(nil))
+	errors.RegisterWrapperEncoderWithMessageType(k,
 		func(_ context.Context, err error) (string, []string, proto.Message, errbase.MessageType) {
 			return err.(*ElideWrap).Msg, nil, nil, errbase.FullMessage
 		})
-	errbase.RegisterWrapperDecoder(k,
+	errors.RegisterWrapperDecoder(k,
 		func(_ context.Context, cause error, msg string, _ []string, _ proto.Message) error {
 			return &ElideWrap{C: cause, Msg: msg}
 		})
-	hl := errbase.GetTypeKey((*HDLeaf)(nil))
-	errbase.RegisterLeafEncoder(hl, func(_ context.Context, err error) (string, []string, proto.Message) {
+	hl := errors.GetTypeKey((*HDLeaf)(nil))
+	errors.RegisterLeafEncoder(hl, func(_ context.Context, err error) (string, []string, proto.Message) {
 		e := err.(*HDLeaf)
 		return e.Msg, nil, &errorspb.StringsPayload{Details: []string{e.Msg, e.Hint, e.Detail}}
 	})
-	errbase.RegisterLeafDecoder(hl, func(_ context.Context, _ string, _ []string, payload proto.Message) error {
+	errors.RegisterLeafDecoder(hl, func(_ context.Context, _ string, _ []string, payload proto.Message) error {
 		m, ok := payload.(*errorspb.StringsPayload)
 		if !ok || len(m.Details) != 3 {
 			return nil
 		}
 		return &HDLeaf{Msg: m.Details[0], Hint: m.Details[1], Detail: m.Details[2]}
 	})
-	hw := errbase.GetTypeKey((*HDWrap)(nil))
-	errbase.RegisterWrapperEncoder(hw, func(_ context.Context, err error) (string, []string, proto.Message) {
+	hw := errors.GetTypeKey((*HDWrap)(nil))
+	errors.RegisterWrapperEncoder(hw, func(_ context.Context, err error) (string, []string, proto.Message) {
 		e := err.(*HDWrap)
 		return e.Msg, nil, &errorspb.StringsPayload{Details: []string{e.Msg, e.Hint, e.Detail}}
 	})
-	errbase.RegisterWrapperDecoder(hw, func(_ context.Context, cause error, _ string, _ []string, payload proto.Message) error {
+	errors.RegisterWrapperDecoder(hw, func(_ context.Context, cause error, _ string, _ []string, payload proto.Message) error {
 		m, ok := payload.(*errorspb.StringsPayload)
 		if !ok || len(m.Details) != 3 {
 			return nil
 		}
 		return &HDWrap{C: cause, Msg: m.Details[0], Hint: m.Details[1], Detail: m.Details[2]}
 	})
-	mk := errbase.GetTypeKey((*MultiReg)(nil))
-	errbase.RegisterMultiCauseEncoder(mk,
+	mk := errors.GetTypeKey((*MultiReg)(nil))
+	errors.RegisterMultiCauseEncoder(mk,
 		func(_ context.Context, err error) (string, []string, proto.Message) {
 			// the wire message is the full text (what a process that does not
 			// know the type displays); the own message travels in the payload.
 			return err.Error(), nil, &errorspb.StringPayload{Msg: err.(*MultiReg).Msg}
 		})
-	errbase.RegisterMultiCauseDecoder(mk,
+	errors.RegisterMultiCauseDecoder(mk,
 		func(_ context.Context, causes []error, _ string, _ []string, payload proto.Message) error {
 			m, ok := payload.(*errorspb.StringPayload)
 			if !ok {
